@@ -271,8 +271,9 @@ func init() {
 			switch {
 			case tier != "thorough" && (sp.name == "S-D" || sp.name == "S-E"):
 				continue
-
-			case tier == "thorough" && (sp.name == "S-A" || sp.name == "S-C"):
+			case tier == "thorough" && (sp.name == "S-A" || sp.name == "S-C" || sp.name == "S-G"):
+				bound = -1 // unbounded (all schedules, happens-before state cache)
+			case tier == "thorough":
 				bound = 3
 			}
 			out = append(out, Plan{Sc: c15Scenario(sp), Bound: bound})
@@ -282,7 +283,7 @@ func init() {
 	plans["C12"] = func(tier string) []Plan {
 		bound := 2
 		if tier == "thorough" {
-			bound = 3
+			bound = -1
 		}
 		for _, sp := range c15Specs() {
 			if sp.name == "S-C" {
@@ -294,7 +295,6 @@ func init() {
 		return nil
 	}
 }
-
 // c15FreeRun serves the scenario with the scheduler INACTIVE: real goroutines,
 // real blocking, the shims pass straight through. It is a cross-check of the
 // race monitor (a plain free-running -race pass over the same scenario
